@@ -66,6 +66,39 @@ def _measures(ctx, col):
                 col.bad("R-BUFDTYPE", d.qualname, d.loc(a), "interpolated values keep their fractional part",
                         f"`{norm_src(a)[:80]}` takes its dtype from the input `{inh}` and `{norm_src(st)[:60]}` stores interpolated values into it: for a branch given as an integer array the "
                         f"positions and radii are truncated on assignment -- interior nodes leave the polyline, steps become unequal", stmt="buf-dtype", definite=True)
+    # the last sample position is the last abscissa of the table it is interpolated in -- the same float, not a separately rounded sum
+    col.rule("R-TOTALSRC", "the end of the new arc-length positions is the last entry of the cumulative table handed to np.interp (`cum[-1]`), not a separately computed sum of the step lengths "
+             "(pairwise float32 summation rounds differently from cumsum: the last node lands a few ulps before the end point and is no longer recognised as its duplicate)", floor=1)
+    n_ts = 0
+    for d in ctx.repo.all_defs():
+        if d.module.name not in RES or d.is_lambda:
+            continue
+        xps = {norm_src(c.args[1]) for c in own_nodes(d) if isinstance(c, ast.Call) and (dotted(c.func) or "").rsplit(".", 1)[-1] == "interp" and len(c.args) >= 3 and isinstance(c.args[1], ast.Name)}
+        if not xps:
+            continue
+        ends = set()
+        for c in own_nodes(d):
+            if isinstance(c, ast.Call) and (dotted(c.func) or "").rsplit(".", 1)[-1] in ("linspace", "arange") and len(c.args) >= 2 and isinstance(c.args[1], ast.Name):
+                ends.add(c.args[1].id)
+        for e_ in sorted(ends):
+            binds = [a for a in own_nodes(d) if isinstance(a, ast.Assign) and len(a.targets) == 1 and isinstance(a.targets[0], ast.Name) and a.targets[0].id == e_]
+            if len(binds) != 1:
+                continue
+            v = binds[0].value
+            txt = norm_src(v)
+            n_ts += 1
+            if any(txt in (f"{x}[-1]", f"{x}[-1].item()", f"float({x}[-1])") for x in xps):
+                col.ok("R-TOTALSRC", d.qualname, d.loc(binds[0]), "the last position is the table's last abscissa", txt, stmt="totalsrc")
+            elif any(isinstance(c, ast.Call) and (dotted(c.func) or "").rsplit(".", 1)[-1] in ("sum", "fsum", "nansum") or (isinstance(c, ast.Call) and isinstance(c.func, ast.Attribute) and c.func.attr == "sum")
+                     for c in ast.walk(v)):
+                col.bad("R-TOTALSRC", d.qualname, d.loc(binds[0]), "the last position is the table's last abscissa",
+                        f"`{norm_src(binds[0])}` sums the step lengths again instead of taking `{sorted(xps)[0]}[-1]`: numpy's pairwise sum and the sequential cumsum round float32 differently, so for long, "
+                        f"finely sampled branches the last new position is a few ulps short of the table's end -- the resampled branch does not end on the original end point and the assembler keeps both nodes",
+                        stmt="totalsrc", definite=True)
+            else:
+                col.unresolved("R-TOTALSRC", d.qualname, d.loc(binds[0]), "the last position is the table's last abscissa", f"`{txt}`: relation to the interpolation table not recognised", stmt="totalsrc")
+    if not n_ts:
+        col.unresolved("R-TOTALSRC", "swcgeom.transforms", "swcgeom/transforms/branch.py:1", "the last position is the table's last abscissa", "no linspace / arange end bound to a single name found next to np.interp", stmt="totalsrc")
     if not n_ch:
         col.ok("R-CHORD", "swcgeom.transforms", "swcgeom/transforms/branch.py:1", "the spacing is measured along the branch", f"{n_defs} functions scanned, no spacing/chord comparison", stmt="chord")
     if not n_bd:
